@@ -256,14 +256,15 @@ def run(ctx):
             par_names = [wname(pp) for pp in params]
             vtab = [(n, i) for n, i in names.t["var"].items()]
             case = ("{| k_fl := %s; k_obj := %s; k_par := %s; k_var := %s; k_ty := %s; k_isb := %s; k_simp := %s; "
-                    "k_rewrite := %s; k_effs := %s; k_lexed := %s; k_parsed := %s |}") % (
+                    "k_rewrite := %s; k_effs := %s; k_text := %s; k_lexed := %s; k_parsed := %s |}") % (
                 glist([gpair(gtext(wname(f)), gn(names.fl(f))) for f in p.fluents]),
                 glist([gpair(gtext(wname(o)), gn(names.obj(o))) for o in p.all_objects]),
                 glist([gpair(gtext(wname(pp)), gn(names.par(pp))) for pp in params]),
                 glist([gpair(gtext(n), gn(i)) for n, i in vtab if n not in par_names]),
                 glist([gpair(gtext(wname(t)), gn(names.ty(t))) for t in p.user_types]),
                 glist([gn(names.fl(f)) for f in p.fluents if f.type.is_bool_type()]),
-                g_table, gbool(rewrite), glist(g_effs), gopt(None if sx is None else gsexp(sx)), gopt(g_parsed))
+                g_table, gbool(rewrite), glist(g_effs), gopt(None if text is None else gtext(text.lstrip(" "))),
+                gopt(None if sx is None else gsexp(sx)), gopt(g_parsed))
             cases.append(case)
             metas.append({"action": None if a is None else str(a), "text": text,
                           "parsed": None if parsed is None else [str(e) for e in parsed], "rewrite": rewrite,
@@ -278,7 +279,7 @@ def run(ctx):
         if m["action"] is None:
             c &= 2          # hand-written text: there is no original effect list, only the parser is compared
         if m["rejected_by_checks"]:
-            c &= 1          # the reader's unmodelled checks rejected the effects: only the printer is compared
+            c &= 1 | 8      # the reader's unmodelled checks rejected the effects: only the printer is compared
         if c == 0:
             continue
         mism += 1
@@ -289,10 +290,15 @@ def run(ctx):
             what.append("model parse_effects differs from UPPDDLReader._add_effect")
         if c & 4:
             what.append("real round trip of effects in the fragment is not norm_effs")
+        if c & 8:
+            what.append("model print_effects_text differs from the writer's text (character by character)")
+            payload_text = ctx.coq_show("model_etext (%s)" % cases[i], imports=IMPORTS, preamble=pre_)
         payload = dict(m)
         payload["code"] = c
         payload["model_print"] = ctx.coq_show("model_eprint (%s)" % cases[i], imports=IMPORTS, preamble=pre_)
         payload["model_parse"] = ctx.coq_show("model_eparse (%s)" % cases[i], imports=IMPORTS, preamble=pre_)
+        if c & 8:
+            payload["model_text"] = payload_text
         ctx.fail("corr", "C18 effect codec: " + "; ".join(what) + " on " + str(m["action"] or m["text"])[:200],
                  ["c18-effect", "print" if c & 1 else "", "parse" if c & 2 else "", "roundtrip" if c & 4 else ""],
                  payload, False)
